@@ -8,8 +8,8 @@ every tymist behaviour / every clock (`Clock τ σ` is an arbitrary state machin
 
 Two defects in `MonoTimer` were repaired in the tree (branch fix/timer: 2e63a16 `start()` left `._last` stale, 6fc7548
 `remaining` used the pre-shift stop); the model is of the repaired code, so `mono_measures_exactly` is unconditional.
-Not covered by a theorem (and not claimed): `Tymer.start()` on a tymer that is not wound raises `TypeError` half-way
-through its assignments — the model stops the trace there (`none`) and so does the adapter.
+A rejected call (`Tymer.start()` at the current tyme on a tymer that is not wound; an argument `float()` refuses) raises and
+leaves the timer as it was (repaired: efaf005, 9dcb362); the trace goes on and `tymer_reports_exactly` covers what follows.
 -/
 namespace Hio.Timer
 
